@@ -199,6 +199,28 @@ class SamplerRun:
         self.results.append(res)
         return res
 
+    def drive_manually(self, n_samples, **objective):
+        """The documented manual way: set_objective + iterate() until finished +
+        extract_result() - without infer()'s final cancel_pending."""
+        self.call_no += 1
+        self.out.ev('S manual drive call %d' % self.call_no)
+        s = self.sampler
+        try:
+            s.set_objective(n_samples, **objective)
+            while not s.finished:
+                s.iterate()
+            res = s.extract_result()
+        except StepCap:
+            self.out.inconclusive = True
+            self.out.ev('S step cap')
+            return None
+        except Exception as e:
+            self.errors.append(e)
+            self.out.ev('S manual drive raised %s' % type(e).__name__)
+            return None
+        self.results.append(res)
+        return res
+
     def drain(self):
         if self.backend is not None:
             self.backend.drain()
